@@ -303,10 +303,14 @@ class Typer:
         n_real = sum(1 for i in items if not (i.op == "const" and (i.args[0] is None or i.args[0] is Ellipsis)))
         out: List[str] = []
         pos = 0
+        adv_positions: List[int] = []       # positions (in out) of axes produced by array-valued indices
+        adv_roles: List[str] = []
+        kinds_seq: List[str] = []           # 'adv' | 'slice' per consumed base axis, to detect separation
         for it in items:
             if it.op == "const" and it.args[0] is Ellipsis:
                 fill = len(base) - n_real
                 out += list(base[pos:pos + fill])
+                kinds_seq += ["slice"] * fill
                 pos += fill
                 continue
             if it.op == "const" and it.args[0] is None:
@@ -319,19 +323,36 @@ class Typer:
                 return None
             if it.op == "slice":
                 out.append(base[pos])
+                kinds_seq.append("slice")
                 pos += 1
                 continue
             ri = self.roles(it, depth + 1)
             if ri is None or ri == ():
                 # scalar index drops the axis
+                kinds_seq.append("scalar")
                 pos += 1
                 continue
             if len(ri) == 1:
                 # 1-d boolean mask / integer array keeps one axis of the indexed kind
-                out.append(base[pos] if ri[0] in ("?",) or KIND.get(ri[0]) == KIND.get(base[pos]) else ri[0])
+                role = base[pos] if ri[0] in ("?",) or KIND.get(ri[0]) == KIND.get(base[pos]) else ri[0]
+                adv_positions.append(len(out))
+                adv_roles.append(role if ri[0] in ("?",) else (ri[0] if KIND.get(ri[0]) not in (None, KIND.get(base[pos])) else role))
+                out.append(role)
+                kinds_seq.append("adv")
                 pos += 1
                 continue
             return None
+        if len(adv_positions) >= 2:
+            # several index arrays broadcast to ONE axis; it goes first when they are separated by a slice
+            first = adv_positions[0]
+            role = adv_roles[0]
+            advs = [i for i, k in enumerate(kinds_seq) if k == "adv"]
+            separated = any(kinds_seq[i] == "slice" for i in range(advs[0], advs[-1]))
+            rest = [x for i, x in enumerate(out) if i not in adv_positions]
+            if separated:
+                out = [role] + rest
+            else:
+                out = rest[:first] + [role] + rest[first:]
         out += list(base[pos:])
         return tuple(out)
 
